@@ -57,7 +57,7 @@ func init() {
 		spec := &mc.Spec{
 			Level: "exploration",
 			Rule: "Reset: a real program (fsgen) creates every subset of ≤ maxKinds residue kinds out of 12 (deep path, path longer than PATH_MAX, mode-000 directory with content, hidden names, dangling / host / self symlinks, FIFO, socket, hard links, 2000 entries, file held open by a surviving process, read-only directory, weird names) in every tmpfs mount of the container (work dir, /tmp, a tmpfs nested in the work dir, a tmpfs with size options, two tmpfs whose names extend the names of earlier ones, three whose names contain pattern characters or a blank), with and without credential switching, in the histories run→Reset and run→run→Reset, the last run ending by itself or refused by the caller's sync callback after the program already ran (sync after exec); " +
-				"afterwards every tmpfs mount must be empty as seen from the host through /proc/<init>/root. memfd: sizes {0,1,4095,4096,4097,65536,1 MiB+1} × byte patterns × reader behaviours (whole, one byte at a time, 7 at a time, failing midway, and readers with a size or position of their own: advanced bytes.Reader, partly consumed SectionReader window, file at an offset, bytes.Buffer, LimitedReader); content, offset and seals checked; every modification attempt by the holder of the descriptor and by a program exec'ed from the sealed file (on its own image and on a second sealed descriptor) must leave the bytes unchanged. " +
+				"afterwards every tmpfs mount must be empty as seen from the host through /proc/<init>/root; plus a Reset that cannot succeed (the init's open-file limit lowered to 24 from the host side, a directory chain of 40 levels left by the program): it either cleans everything or reports the failure. memfd: sizes {0,1,4095,4096,4097,65536,1 MiB+1} × byte patterns × reader behaviours (whole, one byte at a time, 7 at a time, failing midway, and readers with a size or position of their own: advanced bytes.Reader, partly consumed SectionReader window, file at an offset, bytes.Buffer, LimitedReader); content, offset and seals checked; every modification attempt by the holder of the descriptor and by a program exec'ed from the sealed file (on its own image and on a second sealed descriptor) must leave the bytes unchanged. " +
 				"non-trivial: at least one residue kind / size > 0; distinct = (kinds, credential mode, history, listing) or (size, pattern, reader, attack results)",
 			Bound:       map[string]any{"max_kinds": maxKinds, "tmpfs_mounts": c13tmpfs},
 			Assumptions: []string{"writable bind mounts are the caller's directories and are not expected to be emptied", "mode and mtime of a tmpfs mount root are not entries"},
@@ -68,8 +68,21 @@ func init() {
 		spec.Init = func() error { devnull(); return nil }
 		spec.Fini = func() { c13drop(); cleanupTmp() }
 		spec.Body = func(x *mc.X) {
-			if x.Choose(2, "part") == 1 {
+			switch x.Choose(3, "part") {
+			case 1:
 				c13memfd(x)
+				return
+			case 2:
+				// a Reset that cannot succeed: the init is short of descriptors (its open-file limit is lowered from the
+				// host side) while a program left a directory chain deeper than that. Reset may fail — but then it says so
+				cred := x.Bool("credential-switch")
+				kinds := []string{"d", "dh", "dm"}[x.Choose(3, "residue")]
+				if x.Dry() {
+					return
+				}
+				c13shortage = true
+				defer func() { c13shortage = false }()
+				c13reset(x, kinds, cred, false, false)
 				return
 			}
 			n := x.Choose(maxKinds+1, "kinds")
@@ -139,6 +152,9 @@ func c13get(cred bool) (*c12env, error) {
 	c13envs[cred] = e
 	return e, nil
 }
+
+// c13shortage: before Reset the init's open-file limit is lowered to 24 (the deep chain of kind d has 40 levels)
+var c13shortage bool
 
 func c13reset(x *mc.X, kinds string, cred, twoRuns, refused bool) {
 	var names []string
@@ -216,6 +232,15 @@ func c13reset(x *mc.X, kinds string, cred, twoRuns, refused bool) {
 	for _, d := range dirs {
 		created += len(listDir(root + d))
 	}
+	if c13shortage {
+		x.Note("init-descriptor-limit", 24)
+		lim := unix.Rlimit{Cur: 24, Max: 24}
+		if err := unix.Prlimit(e.initPid, unix.RLIMIT_NOFILE, &lim, nil); err != nil {
+			x.Failf("C13/harness", "prlimit: %v", err)
+			return
+		}
+		defer c13drop() // this environment is not used again
+	}
 	var rerr error
 	if !withTimeout(horizon*3, func() { rerr = e.c.Reset() }) {
 		x.Failf("C13/reset/hangs/"+strings.Join(names, "+"), "Reset did not return after residue %v", names)
@@ -248,8 +273,16 @@ func c13reset(x *mc.X, kinds string, cred, twoRuns, refused bool) {
 	if kinds != "" && created == 0 {
 		x.Failf("C13/harness", "fsgen %q created nothing", kinds)
 	}
+	if c13shortage && rerr != nil {
+		// the Reset could not be carried out and said so: the caller knows not to use the environment again
+		x.Outcome(fmt.Sprintf("reset-under-shortage:reported-failure:left=%d", total))
+		return
+	}
 	if total > 0 {
 		key := "C13/reset/entries-survive/" + strings.Join(names, "+")
+		if c13shortage {
+			key = "C13/reset/silent-failure(init short of descriptors)/" + strings.Join(names, "+")
+		}
 		if rerr != nil {
 			key = "C13/reset/entries-survive-with-error/" + strings.Join(names, "+")
 		}
